@@ -2,6 +2,7 @@ import JSL.Inv.Offers
 import JSL.Inv.EnvReach
 import JSL.Props.Example
 import JSL.Inv.ProgressPass
+import JSL.Inv.AcceptBound
 
 /-!
 # C11 — no deadlock (what is proved, and what is false)
@@ -24,8 +25,12 @@ Proved:
   pending (an operation in progress or a busy AGV with a fixed arrival time not in the past), also
   with ordered buffers when early transport is allowed (`c11_something_can_happen_early`);
   `c11_an_agv_is_needed` – without an AGV-typed transport the initial state is stuck.
-  (Not proved: that the terminal state stays reachable and that the always-accept agent finishes in
-  a bounded number of steps.)
+* **`c11_always_accept_finishes`** – in that class, an agent that accepts every offer is done after at
+  most `2·(number of operations) + (number of jobs)` steps, provided every step returns and succeeds
+  (exceptions such as a delivery into a full buffer are C05's findings); the potential behind it
+  (`2·idle records + jobs waiting for a dispatch`) never increases, whatever the agent answers
+  (`c11_no_step_increases_the_potential`), and every successful accept strictly decreases it
+  (`c11_accept_makes_progress`) – on every instance.
 
 False as stated (genuine, recorded as known findings with replayable inputs): inside the class
 the property delimits there are livelocks (an ordered standalone buffer, enough AGVs, early
@@ -107,5 +112,30 @@ theorem c11_an_agv_is_needed : initOKB ExP.instC Ex.s0 = true ∧ restB Ex.s0 = 
 
 /-- non-vacuity: the example instance is in the class -/
 example : flexInstB Ex.inst = true ∧ hasAgvB Ex.inst = true := by decide
+
+/-- every successful accept makes progress: the potential strictly decreases (any instance) -/
+theorem c11_accept_makes_progress {ec : EnvCfg} {st : RewardStatic} {s0 : State} {e : EnvState} {out : StepOut}
+    (hst : Start orc inst s0) (hr : EnvReach orc inst ec st s0 e)
+    (h : envStep orc inst ec st e .accept = .ok out) (hs : out.obsRes.success = true) :
+    pot inst out.env.res.state < pot inst e.res.state :=
+  accept_decreases hst hr h hs
+
+/-- no step increases the potential, whatever the agent answers; it is at most
+`2·(operations) + (jobs)` – so an episode contains at most that many successful accepts -/
+theorem c11_no_step_increases_the_potential {ec : EnvCfg} {st : RewardStatic} {s0 : State} {e : EnvState} {out : StepOut}
+    (hst : Start orc inst s0) (hr : EnvReach orc inst ec st s0 e) {a : AgentAct}
+    (h : envStep orc inst ec st e a = .ok out) :
+    pot inst out.env.res.state ≤ pot inst e.res.state ∧ pot inst e.res.state ≤ potBound inst :=
+  ⟨envStep_pot_le hst hr h, pot_le_bound (envReach_inv hst hr).struct.shape⟩
+
+/-- **The always-accept agent finishes within `2·(operations) + (jobs)` steps** (unordered buffers, an
+AGV; every step of the run returns and succeeds). -/
+theorem c11_always_accept_finishes {ec : EnvCfg} {st : RewardStatic} {s0 : State} (hst : Start orc inst s0)
+    (hF : flexInstB inst = true) (hA : hasAgvB inst = true) (hjk : 0 ≤ ec.mw.jokerInit)
+    {r0 : Rng} {e0 e : EnvState} {mic0 : List State} (hreset : envReset orc inst ec s0 r0 = .ok (e0, mic0))
+    {n : Nat} (hrun : acceptRun orc inst ec st n e0 = .ok e) (hn : potBound inst ≤ n) :
+    isDone inst e.res.state = true ∧ e.truncated = false ∧
+      (isDone inst e0.res.state = false → e.terminated = true) :=
+  always_accept_bound hst hF hA hjk hreset hrun hn
 
 end JSL
